@@ -1024,6 +1024,17 @@ func (t *fnTr) decl(s *ast.DeclStmt, env *Env) ([]string, error) {
 				if ptr {
 					return nil, t.errf(vs, "unsupported pointer variable")
 				}
+				if dt.K == KList {
+					// var ys []T: the nil slice is the empty list (only useful as the target of an append loop)
+					v = val{fmt.Sprintf("(@nil %s)", paren(dt.Elems[0].coq(t.mod))), dt}
+					ls, err := t.bind(n.Name, v, env, true, n)
+					if err != nil {
+						return nil, err
+					}
+					env.lookup(n.Name).emptyLst = true
+					lets = append(lets, ls...)
+					continue
+				}
 				z, err := t.zero(dt, vs)
 				if err != nil {
 					return nil, err
